@@ -209,6 +209,7 @@ class Interp:
         c = self.ch.choose(n, key)
         self.memo[key] = c
         self.pc.append((key, labels[c] if labels else c))
+        self.events.append(Event("DECIDE", {"key": key, "outcome": labels[c] if labels else c}, ""))
         return c
 
     def decide_bool(self, key: str) -> bool:
